@@ -268,6 +268,14 @@ pub fn run(env: &Env) -> Rec {
         }
     });
     rec.merge(ra);
+    // deterministic corpus: words on which string-level (context-sensitive) case mapping differs from the
+    // per-character one, alone, with a width-mapped neighbour, and with spaces (forces the owned paths)
+    let ll = LongLived::new();
+    for w in crate::gen::SPECIAL_WORDS {
+        for s in [w.to_string(), format!("\u{FF21}{}", w), format!("{} ", w), format!(" {}\u{A0}x", w), format!("x{}", w)] {
+            phase_a_one(&ll, &s, w, &mut rec);
+        }
+    }
     phases_bc(env, &mut rec);
     rec
 }
